@@ -35,6 +35,13 @@ def step (d : D) (line : String) : D × String :=
         | .decryptError => "error"
         | .eof => "eof")
     | none => (d, "bad-op")
+  | ["mitm", "replay", i, j] =>
+    match i.toNat?, j.toNat? with
+    | some i, some j =>
+      (match d.wire[i]?, d.wire[j]? with
+       | some f, some _ => ({ d with wire := setAt d.wire j f }, "ok")
+       | _, _ => (d, "no-such-frame"))
+    | _, _ => (d, "bad-op")
   | ["mitm", kind, i] =>
     match i.toNat? with
     | some i =>
